@@ -61,7 +61,7 @@ fn sinks_ascending(g: &Sexp) -> bool {
     })
 }
 
-fn gen_file(r: &mut Rng) -> String {
+fn gen_file(r: &mut Rng, syn_values: bool) -> String {
     let keys = ["k", "w", "seen", "tag"];
     // every kind of value, `#null` included: it is an ordinary value, and a different later value conflicts with it
     let vals = ["1", "2", "\"x\"", "#true", "[1, 2]", "#null", "#null", "#false", "{1}"];
@@ -81,6 +81,15 @@ fn gen_file(r: &mut Rng) -> String {
     t.push_str("}\n");
     if r.chance(1, 2) {
         t.push_str(&format!("(identifier) @id {{\n  node @id.n\n  edge @id.n -> ga\n  attr (@id.n) {} = (source-text @id)\n}}\n", r.pick(&keys)));
+    }
+    if syn_values {
+        // attribute values that are syntax nodes: two different nodes are two different values, also when they are of the
+        // same kind and start at the same position (`a + b + c`, `x.y.z`)
+        match r.below(3) {
+            0 => t.push_str("(binary_operator) @b {\n  attr (ga) op = @b\n}\n"),
+            1 => t.push_str("(attribute) @at {\n  edge ga -> gb\n  attr (ga -> gb) at = @at\n}\n"),
+            _ => t.push_str("(binary_operator left: (binary_operator) @inner) @outer {\n  attr (gb) op = @inner\n  attr (gb) op = @outer\n}\n"),
+        }
     }
     // the node statement template above may yield duplicate names; normalise
     let mut out = String::new();
@@ -107,7 +116,12 @@ pub fn run(rep: &mut Report, tier: &str, seed: u64) {
     let root = Rng::new(seed);
     for hi in 0..n_hist {
         let mut r = root.fork(hi as u64);
-        let source = gen_source(&mut r, true, false);
+        let mut source = gen_source(&mut r, true, false);
+        let syn_values = hi % 4 == 3;
+        if syn_values {
+            let src = format!("{}q = a + b + c\nw = x.y.z\n", source.src);
+            source = crate::props::common::Source { tree: crate::tree::parse_python(&src), src };
+        }
         let info = TreeInfo::new(&source.tree);
         drv.ask(&sexp::tagged("set-tree", vec![info.to_sexp(&source.src)]));
         let mut graph = Graph::new();
@@ -133,7 +147,7 @@ pub fn run(rep: &mut Report, tier: &str, seed: u64) {
         let mut history = Vec::new();
         let mut any_ok = false;
         for ci in 0..calls {
-            let text = gen_file(&mut r);
+            let text = gen_file(&mut r, syn_values);
             let file = match load(&text) {
                 Ok(Ok(f)) => f,
                 other => {
